@@ -436,15 +436,15 @@ Proof.
   - rewrite (H 0%nat x eq_refl) by lia. rewrite (IH j); [lia|]. intros i h Hi Hne. apply (H (S i) h Hi). lia.
 Qed.
 
-Lemma live_is_shown c progs sched t :
+Lemma live_is_shown_k c progs sched kk t :
   c_variant c = Repaired ->
   let x := run_sched c (sys0 progs) sched in
-  quiescent x = true -> live_of (c_kind c) t (hs (sh x)) = shown (c_kind c) (sh x) t.
+  quiescent x = true -> live_of kk t (hs (sh x)) = shown kk (sh x) t.
 Proof.
   intros Hv x Q.
   pose proof (run_sched_inv c sched _ Hv (Inv0 c progs)) as [HS _ _ _]. fold x in HS.
   pose proof (conc_removed_is_stale c progs sched Hv Q) as RS. fold x in RS.
-  set (G := fun h => if h_stale h then 0 else fm (c_kind c) t h).
+  set (G := fun h => if h_stale h then 0 else fm kk t h).
   assert (Key : forall i h, nth_error (hs (sh x)) i = Some h -> G h <> 0 -> lookup (sh x) t = Some i).
   { intros i h Hi Hg. unfold G, fm in Hg. destruct (h_stale h) eqn:S; [congruence|].
     destruct (tuple_eqb (h_tuple h) t) eqn:T; [|congruence]. apply tuple_eqb_eq in T.
@@ -456,7 +456,7 @@ Proof.
       - f_equal. symmetry. eapply map_load_unique; eauto. apply (si_keys _ HS).
       - exfalso. apply map_load_None in L. apply L. exact (List.in_map fst _ _ M). }
     unfold get_handle. rewrite Hi. rewrite <- T. rewrite (proj2 (tuple_eqb_eq _ _) eq_refl). reflexivity. }
-  unfold live_of. change (fold_right (fun h a => (if h_stale h then 0 else fm (c_kind c) t h) + a) 0 (hs (sh x)))
+  unfold live_of. change (fold_right (fun h a => (if h_stale h then 0 else fm kk t h) + a) 0 (hs (sh x)))
     with (fold_right (fun h a => G h + a) 0 (hs (sh x))).
   unfold shown. destruct (lookup (sh x) t) as [id0|] eqn:L.
   - rewrite (sum_single G _ id0).
@@ -477,6 +477,12 @@ Proof.
     + intros i h Hi _. destruct (Z.eq_dec (G h) 0) as [Z0|NZ]; [exact Z0|]. exfalso.
       pose proof (Key i h Hi NZ) as K. congruence.
 Qed.
+
+Lemma live_is_shown c progs sched t :
+  c_variant c = Repaired ->
+  let x := run_sched c (sys0 progs) sched in
+  quiescent x = true -> live_of (c_kind c) t (hs (sh x)) = shown (c_kind c) (sh x) t.
+Proof. exact (live_is_shown_k c progs sched (c_kind c) t). Qed.
 
 Lemma tsum_ext f g l : (forall th, In th l -> f th = g th) -> tsum f l = tsum g l.
 Proof. intros H. induction l as [|a l IH]; simpl; [reflexivity|]. rewrite (H a (or_introl eq_refl)), IH; auto. intros th Hin. apply H. right; exact Hin. Qed.
